@@ -5,7 +5,7 @@ CONSTANTS
   GroupThreshold = 2
   ClientQuorum = 3
   MemberLists <- Lists
-  Envs <- AllEnvs
+  Envs <- SomeEnvs
   AdvKinds <- AllAdv
   MaxAdversarial = 2
   StrictVerify = TRUE
